@@ -350,12 +350,13 @@ class PFITSReader(Filterbank):
 
         for ii, block, skip in track(blocks, description=description, disable=quiet):
             startsub, startsamp = divmod(start, self.sub_hdr.subint_samples)
+            # Each block covers samples [startsamp, startsamp + block) of the rows read
             nsubs = (
-                nsamps + self.sub_hdr.subint_samples - 1
+                startsamp + block + self.sub_hdr.subint_samples - 1
             ) // self.sub_hdr.subint_samples
 
             data = self._fitsfile.read_subints(startsub, nsubs)
-            data = data[startsamp : startsamp + nsamps]
+            data = data[startsamp : startsamp + block]
             start += block + skip
             yield block, ii, data.ravel()
 
